@@ -41,6 +41,7 @@ def _single(draw, tier):
         spec = draw(gen.sd_circuit(input_types=gen.ALL_INPUTS, **kw))
     else:
         spec = draw(gen.sd_circuit(input_types=gen.ALL_INPUTS, cx=True, **kw))
+    spec = gen.unlearn(draw, spec, p=8)
     return dict(cfg, bases=[spec], pipe=[{"op": "base", "i": 0}], family="single")
 
 
